@@ -270,7 +270,9 @@ Arguments t_tick {T}.
 Arguments t_reset {T}.
 Arguments t_write {T}.
 
-Inductive part := PLit (s : text) | PKey (k : string) (w : option N).
+(** a parsed template part (TemplatePart, style.rs:669-680; alignment Left, no truncation, no
+    styles).  [PNewLine] is what the parser pushes for a '\n' of the template (style.rs:497-506). *)
+Inductive part := PLit (s : text) | PKey (k : string) (w : option N) | PNewLine.
 
 Record style (T : Type) := {
   tick_strings : list text;
@@ -283,10 +285,34 @@ Arguments sty_tab {T}.
 Arguments customs {T}.
 Arguments template {T}.
 
+(** the same style with another template (used to render one template line on its own) *)
+Definition with_template {T} (sty : style T) (ps : list part) : style T :=
+  {| tick_strings := tick_strings sty; sty_tab := sty_tab sty; customs := customs sty;
+     template := ps |}.
+
 Fixpoint lookup {A} (k : string) (l : list (string * A)) : option A :=
   match l with
   | [] => None
   | (k', a) :: r => if String.eqb k k' then Some a else lookup k r
+  end.
+
+(** the template lines: the parts between two NewLine parts (n NewLine parts -> n+1 lines, the
+    last one possibly empty) *)
+Fixpoint split_lines (ps : list part) : list (list part) :=
+  match ps with
+  | [] => [[]]
+  | PNewLine :: r => [] :: split_lines r
+  | p :: r => match split_lines r with l :: ls => (p :: l) :: ls | [] => [[p]] end
+  end.
+
+(** the frame made of the renderings of the template lines: a line that is followed by a NewLine
+    is pushed even when it is empty (one empty row), the text after the last NewLine is pushed
+    only if it is not empty (style.rs:387-395) *)
+Fixpoint join_lines (ls : list (list text)) : list text :=
+  match ls with
+  | [] => []
+  | [l] => l
+  | l :: r => (match l with [] => [[]] | _ => l end) ++ join_lines r
   end.
 
 Section FormatState.
@@ -294,18 +320,25 @@ Section FormatState.
   Variable TO : tracker_ops T.
   Variable F : formatters.
 
-  (** the Placeholder arm (style.rs:240-383): custom keys shadow the built-in ones, their output
-      goes through TabRewriter; then padding when a width is given (no style, left aligned,
-      not truncating). *)
+  (** what the Placeholder arm writes into the (cleared) scratch buffer [buf], and the wide
+      element it sets, if any (style.rs:256-363): custom keys shadow the built-in ones, their
+      output goes through TabRewriter *)
+  Definition key_text (sty : style T) (s : snapshot) (k : string) (w : option N)
+    : text * option wide :=
+    match lookup k (customs sty) with
+    | Some tr => (expand_tabs (sty_tab sty) (t_write TO tr (view_of s)), None)
+    | None => key_value F (tick_strings sty) s k w
+    end.
+
+  (** the Placeholder arm (style.rs:248-385): the text appended to [cur] - [buf], padded when a
+      width is given (no style, left aligned, not truncating) - and the wide element *)
   Definition render_key (sty : style T) (s : snapshot) (k : string) (w : option N)
     : text * option wide :=
-    let '(buf, wd) :=
-      match lookup k (customs sty) with
-      | Some tr => (expand_tabs (sty_tab sty) (t_write TO tr (view_of s)), None)
-      | None => key_value F (tick_strings sty) s k w
-      end in
+    let '(buf, wd) := key_text sty s k w in
     (match w with Some w => pad_left buf w | None => buf end, wd).
 
+  (** the parts of ONE template line (up to the first NewLine part or the end of the template)
+      folded over [cur] and [wide] *)
   Fixpoint render_parts (sty : style T) (s : snapshot) (ps : list part) (cur : text) (wd : option wide)
     : text * option wide :=
     match ps with
@@ -314,9 +347,10 @@ Section FormatState.
     | PKey k w :: r =>
         let '(out, wd') := render_key sty s k w in
         render_parts sty s r (cur ++ out) (match wd' with Some x => Some x | None => wd end)
+    | PNewLine :: _ => (cur, wd)
     end.
 
-  (** WideElement::expand (style.rs:438-482), alignment Left *)
+  (** WideElement::expand (style.rs:443-482), alignment Left *)
   Definition expand_wide (wd : wide) (cur : text) (s : snapshot) (target_width : N) : text :=
     let left := target_width - text_width (replace0 [] cur) in
     match wd with
@@ -327,14 +361,107 @@ Section FormatState.
         replace0 trimmed cur
     end.
 
-  (** format_state for a template without NewLine parts: the lines appended to draw_state.lines *)
-  Definition format_state (sty : style T) (s : snapshot) (target_width : N) : list text :=
+  (** push_line (style.rs:399-425): the wide element seen so far, if any, is expanded in [cur];
+      the result is split at '\n' *)
+  Definition push_line (wd : option wide) (cur : text) (s : snapshot) (target_width : N) : list text :=
+    split_nl (match wd with Some w => expand_wide w cur s target_width | None => cur end) [].
+
+  (** format_state for a template without NewLine parts (the definition this file had before
+      multi-line templates were modelled; [format_state_single_line] in KeysProofs.v: the general
+      [format_state] below agrees with it on every template without NewLine parts) *)
+  Definition format_state_single (sty : style T) (s : snapshot) (target_width : N) : list text :=
     let '(cur, wd) := render_parts sty s (template sty) [] None in
     match cur with
     | [] => []                                              (* if !cur.is_empty() *)
     | _ =>
         let expanded := match wd with Some w => expand_wide w cur s target_width | None => cur end in
         split_nl expanded []
+    end.
+
+  (** ---- format_state (style.rs:234-396) on its three locals, exactly as the code runs:
+      [cur] (the line being built; taken = emptied by push_line), [buf] (scratch buffer: cleared at
+      the START of every Placeholder arm, style.rs:256, and before the padded message is written
+      in WideElement::Message::expand, style.rs:462; NOT cleared at a NewLine, so the padded
+      message of a wide_msg line is still in it when the next line starts), [wide] (set by
+      wide_bar / wide_msg, NEVER reset: the element of an earlier line is still the wide element
+      of the later lines). *)
+
+  (** TemplatePart::Placeholder (style.rs:248-385) *)
+  Definition m_placeholder (sty : style T) (s : snapshot) (k : string) (w : option N)
+                           (cur buf : text) (wd : option wide) : text * text * option wide :=
+    let buf : text := [] in                                   (* buf.clear()          :256 *)
+    let '(v, wd') := key_text sty s k w in
+    let buf := buf ++ v in                                    (* every arm appends    :257-363 *)
+    (cur ++ (match w with Some w => pad_left buf w | None => buf end),   (* :365-384 *)
+     buf,
+     match wd' with Some x => Some x | None => wd end).
+
+  (** WideElement::expand with the scratch buffer it is handed (style.rs:443-482) *)
+  Definition m_expand_wide (wd : wide) (cur buf : text) (s : snapshot) (target_width : N) : text * text :=
+    let left := target_width - text_width (replace0 [] cur) in
+    match wd with
+    | WBar => (replace0 (f_bar F (o_fraction (s_obs s)) left) cur, buf)     (* buf untouched *)
+    | WMsg =>
+        let buf := pad_left_trunc (s_message s) left in       (* buf.clear(); write!(buf, padded) *)
+        let trimmed := match rev cur with 0 :: _ => trim_end buf | _ => buf end in
+        (replace0 trimmed cur, buf)                           (* buf stays filled *)
+    end.
+
+  (** push_line: lines pushed, and the scratch buffer afterwards *)
+  Definition m_push_line (wd : option wide) (cur buf : text) (s : snapshot) (target_width : N)
+    : list text * text :=
+    let '(expanded, buf') :=
+      match wd with Some w => m_expand_wide w cur buf s target_width | None => (cur, buf) end in
+    (split_nl expanded [], buf').
+
+  (** the loop over the parts and the final [if !cur.is_empty()] (style.rs:246-395); the result is
+      what is appended to draw_state.lines *)
+  Fixpoint m_format (sty : style T) (s : snapshot) (target_width : N) (ps : list part)
+                    (cur buf : text) (wd : option wide) : list text :=
+    match ps with
+    | [] =>
+        match cur with
+        | [] => []                                            (* if !cur.is_empty()   :393 *)
+        | _ => fst (m_push_line wd cur buf s target_width)
+        end
+    | PLit l :: r => m_format sty s target_width r (cur ++ l) buf wd
+    | PKey k w :: r =>
+        let '(cur', buf', wd') := m_placeholder sty s k w cur buf wd in
+        m_format sty s target_width r cur' buf' wd'
+    | PNewLine :: r =>                                        (* unconditional push   :387-389 *)
+        let '(ls, buf') := m_push_line wd cur buf s target_width in
+        ls ++ m_format sty s target_width r [] buf' wd        (* mem::take(cur); wide kept *)
+    end.
+
+  (** format_state: the lines appended to draw_state.lines, for any template *)
+  Definition format_state (sty : style T) (s : snapshot) (target_width : N) : list text :=
+    m_format sty s target_width (template sty) [] [] None.
+
+  (** the same loop without the scratch buffer ([m_format_no_buf] in KeysProofs.v: [buf] never
+      reaches the output, whatever it holds) *)
+  Fixpoint format_parts (sty : style T) (s : snapshot) (target_width : N) (ps : list part)
+                        (cur : text) (wd : option wide) : list text :=
+    match ps with
+    | [] => match cur with [] => [] | _ => push_line wd cur s target_width end
+    | PLit l :: r => format_parts sty s target_width r (cur ++ l) wd
+    | PKey k w :: r =>
+        let '(out, wd') := render_key sty s k w in
+        format_parts sty s target_width r (cur ++ out) (match wd' with Some x => Some x | None => wd end)
+    | PNewLine :: r => push_line wd cur s target_width ++ format_parts sty s target_width r [] wd
+    end.
+
+  (** ... and line by line: every template line is rendered by [render_parts] from an empty [cur]
+      and the wide element left by the lines before it *)
+  Fixpoint format_segs (sty : style T) (s : snapshot) (target_width : N) (segs : list (list part))
+                       (cur : text) (wd : option wide) : list text :=
+    match segs with
+    | [] => []
+    | seg :: rest =>
+        let '(c, w) := render_parts sty s seg cur wd in
+        match rest with
+        | [] => match c with [] => [] | _ => push_line w c s target_width end
+        | _ => push_line w c s target_width ++ format_segs sty s target_width rest [] w
+        end
     end.
 End FormatState.
 
